@@ -34,7 +34,7 @@ def run(ctx, replay=None):
         return 1 if new else 0
     out, st = ctx.model_check("RobustGen", "RobustGen" if q else "RobustGen_thorough", env={"OUT": gen}, workers=1, timeout=3000)
     counts = [int(x) for x in out.split('<<"COUNTS", ')[1].split(">>")[0].split(", ")]
-    nfuzz = 2000 if q else 100000
+    nfuzz = 20000 if q else 2000000
     files = []
     total = 0
     universes = []
